@@ -152,6 +152,49 @@ func checkC13(R *Run) {
 			if delivered == 0 {
 				R.bad("refuse-pm", fname(fn)+": delivery of the message", P.pos(fn.Pos()), "the message addressed to the target is never appended to the handler's result (or the idiom changed)")
 			}
+			// the automatic reply is honoured whenever the target has one set — whether or not it refuses messages
+			{
+				autoBlocks := map[*ssa.BasicBlock]bool{}
+				for _, ci := range callsIn(fn) {
+					c := ci.Common()
+					if calleeName(c) != "hotline.NewTransaction" {
+						continue
+					}
+					for _, f := range callArgsFlat(c)[2:] {
+						if nf := callValue(f); nf != nil && calleeName(&nf.Call) == "hotline.NewField" {
+							if g, _ := globalName(nf.Call.Args[0]); g == "hotline.FieldData" && strings.Contains(stripRecv(P.sym(nf.Call.Args[1])), "AutoReply") {
+								autoBlocks[ci.Block()] = true
+							}
+						}
+					}
+				}
+				var start *ssa.BasicBlock
+				for _, ci := range callsIn(fn) {
+					if c, ok := ci.(*ssa.Call); ok {
+						if a, _, isAtom := atom(Fact{V: c, Kind: "truth", Holds: true}); isAtom && a == "REFUSE" {
+							start = c.Block()
+						}
+					}
+				}
+				if start != nil && len(autoBlocks) > 0 {
+					for _, refuse := range []bool{false, true} {
+						missed := ""
+						explore([]psItem{{start, nilState{}}}, cutFor(map[string]bool{"AUTOREPLY": true, "REFUSE": refuse}), false, func(b *ssa.BasicBlock, _ nilState) bool {
+							if autoBlocks[b] {
+								return false
+							}
+							if len(b.Instrs) > 0 {
+								if r, isRet := b.Instrs[len(b.Instrs)-1].(*ssa.Return); isRet {
+									missed = P.ipos(r)
+								}
+							}
+							return true
+						})
+						R.check(missed == "", "refuse-pm", fmt.Sprintf("%s: automatic reply honoured (target refuses messages: %v)", fname(fn), refuse), P.pos(fn.Pos()),
+							"every path with a non-empty auto-reply produces it", "the handler can return at "+missed+" without producing the target's automatic reply although one is set (the recipient's automatic response is dropped)")
+					}
+				}
+			}
 			if n < 2 {
 				R.bad("refuse-pm", fname(fn)+": notices", P.pos(fn.Pos()), "refusal notice or automatic reply not found")
 			}
@@ -159,7 +202,7 @@ func checkC13(R *Run) {
 	} else {
 		R.bad("refuse-pm", "transaction 108", "-", "no handler registered")
 	}
-	R.floor("refuse-pm", 4)
+	R.floor("refuse-pm", 6)
 
 	// ---- notify-after-change / notify-fields
 	nStores := 0
